@@ -324,9 +324,6 @@ func runTyped(enc *json.Encoder, seed uint64, n int) {
 				default:
 					if r.n(8) == 0 {
 						log = append(log, "clear")
-						if h != nil && h.B >= 4 {
-							break // recorded finding mapclear-keeps-stale-overflow-links: not re-tested here
-						}
 						MapClear(cfg.t, h)
 						clear(nm)
 					}
